@@ -451,6 +451,9 @@ def search(func, tier, seed, obligation=""):
         [{"jsonrpc": "2.0", "id": 1, "method": "textDocument/hover", "params": {}}, hov(2)],
         [hov(1), {"jsonrpc": "2.0", "id": 5, "method": "shutdown"}, {"jsonrpc": "2.0", "method": "exit"}, hov(9)],
         [{"jsonrpc": "2.0", "method": "textDocument/didChange", "params": {"bogus": 1}}, hov(4)],
+        # requests between shutdown and exit are still answered
+        [hov(1), {"jsonrpc": "2.0", "id": 2, "method": "shutdown"}, hov(3), {"jsonrpc": "2.0", "id": 4, "method": "nosuch/m"},
+         {"jsonrpc": "2.0", "id": 5, "method": "shutdown"}, hov(6), {"jsonrpc": "2.0", "method": "exit"}],
         [{"jsonrpc": "2.0", "id": "s-1", "method": "workspace/symbol", "params": {"query": ""}}, hov(2)],
     ]
     for sc in scripts:
@@ -501,7 +504,9 @@ def extra(repo, reg, tier, seed):
         for callee in pred:
             for recv, f, node, cls in eff.funcs[callee].writes:
                 if f in ("running", "conn") and eff.related(cls, LS.rsplit(".", 0)[0]) and cls in (None, LS):
-                    if not (f == "running" and callee == f"{LS}.serve_exit"):
+                    # the exit notification alone may clear `running` (through serve_exit); any other method that reaches
+                    # that write stops the server before `exit`
+                    if not (f == "running" and callee == f"{LS}.serve_exit" and method == "exit"):
                         bad.append({"field": f, "in": callee, "where": eff.funcs[callee].info.where(node),
                                     "call_path": eff.path(pred, callee)})
         items.append(Item(f"C01/H[{method}]/modifies.running", "refuted" if bad else "proved", "frame-analysis", 0.0,
@@ -519,6 +524,6 @@ def extra(repo, reg, tier, seed):
     # bounded native sessions (labelled bounded): known/unknown/malformed methods interleaved with sync events
     w = search(f"{LS}.run", tier, seed, "ensures.session")
     items.append(Item("C01/session/native_protocol", "refuted" if w else "bounded-ok", "native-run(bounded)", 0.0,
-                      mode="bounded", detail="bounded: 8 scripted sessions over the real server (ids, order, error codes, exit)",
+                      mode="bounded", detail="bounded: 9 scripted sessions over the real server (ids, order, error codes, exit)",
                       witness=w, confirmed=True if w else None, func=f"{LS}.run"))
     return items
